@@ -110,8 +110,8 @@ Example C01_example_desc :
   = [1#4;1#4;1#4;1#4;1#3;1#3;1#3;3#7;3#7;4#7;5#8;5#8;1;1;1;1]%Q.
 Proof. vm_compute. reflexivity. Qed.
 Example C01_example_asc_ties :
-  tdc false [3;5;5;1;3] LBool [1;0;1;1;0] = Ok [1;1;1;1;1]%Q /\
-  tdc true [3;5;5;1;3] LFloat [2;0;2;2;0] = Ok [1;1;1;1;1]%Q /\
+  match tdc false [3;5;5;1;3] LBool [1;0;1;1;0] with Ok qs => map Qred qs | Err _ => [] end = [1;1;1;1;1]%Q /\
+  match tdc true [3;5;5;1;3] LFloat [2;0;2;2;0] with Ok qs => map Qred qs | Err _ => [] end = [1;1;1;1;1]%Q /\
   tdc true [1;2] LInt [1;2] = Err EValue /\ tdc true [1;2] LBool [1] = Err EValue.
 Proof. vm_compute. repeat split. Qed.
 Example C01_labels_example :
